@@ -215,6 +215,18 @@ var customErr = utils.ErrorHandlerFunc(func(w http.ResponseWriter, _ *http.Reque
 // wrap builds one layer around next. intervene makes this layer the intervening one; custom
 // (with intervene) configures the layer's own way of answering: 1 = a caller-supplied error
 // handler / fallback handler, 2 = the breaker's stock response fallback, 3 = its redirect fallback.
+// burstyRates: the non-intervening rate limiters of the current case allow 1 per second with a
+// burst of 30 (and 1000 per hour) instead of 1000 per second.
+var burstyRates bool
+
+// hangingHooks: when not nil, breakers built for the current case get on-tripped / on-standby
+// side effects that block until the channel is closed (at the end of the case).
+var hangingHooks chan struct{}
+
+type hangEffect struct{ until chan struct{} }
+
+func (h hangEffect) Exec() error { <-h.until; return nil }
+
 // stickyNames: the affinity cookie names of the sticky balancers built for the current case.
 var stickyNames []string
 
@@ -282,6 +294,9 @@ func wrap(t *rapid.T, kind string, next http.Handler, intervene bool, custom ...
 		rs := ratelimit.NewRateSet()
 		if intervene {
 			must(rs.Add(time.Hour, 1, 1))
+		} else if burstyRates { // a small sustained rate with a large burst, next to an hourly budget
+			must(rs.Add(time.Second, 1, 30))
+			must(rs.Add(time.Hour, 1000, 1000))
 		} else {
 			must(rs.Add(time.Second, 1000, 1000))
 		}
@@ -318,6 +333,9 @@ func wrap(t *rapid.T, kind string, next http.Handler, intervene bool, custom ...
 		}
 		if verbose {
 			opts = append(opts, cbreaker.Verbose(true), cbreaker.Logger(formatLogger{}))
+		}
+		if hangingHooks != nil { // side effects (webhooks) whose endpoint never answers
+			opts = append(opts, cbreaker.OnTripped(hangEffect{hangingHooks}), cbreaker.OnStandby(hangEffect{hangingHooks}))
 		}
 		h, err := cbreaker.New(next, expr, opts...)
 		must(err)
@@ -510,6 +528,13 @@ func TestC20_Transparent(t *testing.T) {
 		stickyNames = nil
 		connLimit = rapid.SampledFrom([]int64{1, 2, 3, 5}).Draw(t, "connLimit")
 		defer func() { connLimit = 5 }()
+		burstyRates = false
+		for _, l := range layers {
+			if l == "ratelimit" && rapid.IntRange(0, 3).Draw(t, "burstyRates") == 0 {
+				burstyRates = true
+			}
+		}
+		defer func() { burstyRates = false }()
 		// an outer handler (session middleware, CORS) may have put a cookie on the response already
 		presetCookie := rapid.IntRange(0, 3).Draw(t, "presetCookie") == 0
 		// exchanges before this one may have been aborted by the handler (backend died mid-body)
@@ -548,6 +573,28 @@ func TestC20_Transparent(t *testing.T) {
 			wreq.Header.Set("X-Warm", "abort")
 			if _, p := serve(h, sim.NewRecorder(), wreq, false); p != nil && p != http.ErrAbortHandler {
 				t.Fatalf("an exchange aborted by the handler (panic(http.ErrAbortHandler)) came out of the stack %v as %v", layers, p)
+			}
+		}
+		if burstyRates {
+			// the client spends its burst, stays away for five minutes and comes back with another
+			// burst: all of that is within the limits (1/s, burst 30; 1000/h)
+			ordinary := func() {
+				wreq := newRequest(bodyLen)
+				wreq.Header.Set("X-Warm", "200")
+				if _, p := serve(h, sim.NewRecorder(), wreq, false); p != nil {
+					t.Fatalf("an ordinary exchange before the measured one came out of the stack %v as %v", layers, p)
+				}
+			}
+			for i := 0; i < 30; i++ {
+				ordinary()
+			}
+			clock.Advance(5 * time.Minute)
+			before := o1.warm
+			for i := 0; i < 29; i++ {
+				ordinary()
+			}
+			if got := o1.warm - before; got != 29 {
+				t.Fatalf("rate limits 1/s burst 30 and 1000/h: after five idle minutes only %d of 29 requests at one instant reached the handler\nstack %v", got, layers)
 			}
 		}
 		rec1 := sim.NewRecorder()
@@ -714,10 +761,18 @@ func TestC20_Intervening(t *testing.T) {
 		if custom >= 2 && layers[pos] != "cbreaker" {
 			custom = 1
 		}
+		// a breaker that has been flapping (several trips and recoveries) with side effects that
+		// never return still answers every request
+		flaps := 0
+		if layers[pos] == "cbreaker" && rapid.IntRange(0, 2).Draw(t, "flappingBreakerWithHangingHooks") == 0 {
+			flaps = rapid.IntRange(3, 6).Draw(t, "flaps")
+			hangingHooks = make(chan struct{})
+			defer func(ch chan struct{}) { close(ch); hangingHooks = nil }(hangingHooks)
+		}
 		for i := len(layers) - 1; i >= 0; i-- {
 			h = wrap(t, layers[i], h, i == pos, custom)
 		}
-		desc := fmt.Sprintf("stack (outermost first) %v, layer #%d (%s) intervenes (own answer: %d), handler %s", layers, pos, layers[pos], custom, s)
+		desc := fmt.Sprintf("stack (outermost first) %v, layer #%d (%s) intervenes (own answer: %d, %d earlier trip/recovery cycles with hanging side effects), handler %s", layers, pos, layers[pos], custom, flaps, s)
 		// warm-up traffic that arms the intervening layer
 		warm := func(status int) {
 			req := newRequest(0)
@@ -730,9 +785,26 @@ func TestC20_Intervening(t *testing.T) {
 		case "ratelimit":
 			warm(200)
 		case "cbreaker":
-			for i := 0; i < 3; i++ {
-				warm(502)
+			trip := func() { // failing responses, more than a check period apart, until the breaker answers itself
+				for i := 0; i < 20; i++ {
+					before := o.warm
+					warm(502)
+					if o.warm == before {
+						return
+					}
+					clock.Advance(150 * time.Millisecond)
+				}
+				t.Fatalf("INFRA: twenty failing responses in a row did not trip the breaker\n%s", desc)
 			}
+			for f := 0; f < flaps; f++ {
+				trip()
+				clock.Advance(10*time.Second + time.Millisecond)
+				warm(200) // fallback period over: recovery begins
+				clock.Advance(10*time.Second + time.Millisecond)
+				warm(200) // recovery over: standby again
+				clock.Advance(time.Second)
+			}
+			trip()
 		}
 		bodyLen := 0
 		if layers[pos] == "buffer" {
